@@ -435,9 +435,22 @@ func symBranch(fr *frame, c value, site ssa.Instruction) bool {
 			rt, _ := ex.check(c.term, false)
 			tOK := rt != "unsat"
 			fOK := true
+			rf := "sat"
 			if tOK {
-				rf, _ := ex.check(not1(c.term), false)
+				rf, _ = ex.check(not1(c.term), false)
 				fOK = rf != "unsat"
+			}
+			if (rt != "sat" && rt != "unsat") || (rf != "sat" && rf != "unsat") {
+				// no back end decided the feasibility of this branch within the cap: the path is
+				// undecided (exploring a possibly infeasible side could only produce noise)
+				where := fr.fn.String()
+				for f := fr; f != nil; f = f.caller {
+					if fr.i.info(f.fn).repo && !fr.i.info(f.fn).isVerif && !strings.Contains(f.fn.Name(), "Verif") {
+						where = f.fn.String()
+						break
+					}
+				}
+				panic(engineFault{"solver undecided at a branch in " + where})
 			}
 			switch {
 			case tOK && fOK:
